@@ -1,7 +1,11 @@
 //! C11 — protocol-change notifications track the advertised protocol sets.
 //! Layer (i): the real from_initial_protocols / from_full_sets / add / remove through the swarm::verif shims,
 //! with the state kept across calls exactly as `Connection` keeps it.
-//! Layer (ii) (world, real Connection + handler) lives in c11w.rs.
+//! Layer (ii) (`connection` sub-check below): a real `Connection` (hook `swarm::verif::Conn`) polled by the
+//! harness over a simulated muxer, with a scripted handler that changes its advertised list and returns
+//! `ReportRemoteProtocols` events in generated batches (several reports within one `Connection::poll`,
+//! reports released in reaction to a `LocalProtocolsChange`), so the state `Connection` shares between the
+//! helpers (the protocol buffer, the tracked sets) is the real one.
 use libp2p_swarm::StreamProtocol;
 use proptest::prelude::*;
 use serde::{Deserialize, Serialize};
@@ -111,6 +115,274 @@ fn check(c: &Case) -> Outcome {
     Outcome::pass_l(nontrivial, labels)
 }
 
+// ---------------------------------------------------------------------------------------------
+// layer (ii): the real Connection
+
+mod conn {
+    use super::{names, valid, NAMES};
+    use futures::task::noop_waker;
+    use libp2p_swarm::handler::{ConnectionEvent, ProtocolSupport, ProtocolsChange};
+    use libp2p_swarm::verif::{Conn, ConnPoll};
+    use libp2p_swarm::{ConnectionHandler, ConnectionHandlerEvent, StreamProtocol, SubstreamProtocol};
+    use proptest::prelude::*;
+    use serde::{Deserialize, Serialize};
+    use serde_json::json;
+    use simswarm::net::{boxed, mux_pair, SimMuxer};
+    use simswarm::probe::ProbeUpgrade;
+    use std::collections::{BTreeSet, HashSet, VecDeque};
+    use std::convert::Infallible;
+    use std::sync::{Arc, Mutex};
+    use std::task::{Context, Poll};
+    use std::time::Duration;
+    use vcore::Outcome;
+
+    /// one remote report: (is_added, name indices)
+    pub type Report = (bool, Vec<u8>);
+
+    #[derive(Clone, Debug, Serialize, Deserialize)]
+    pub struct Step {
+        /// the handler advertises this list from now on (None = unchanged)
+        pub local: Option<Vec<u8>>,
+        /// reports the handler returns from consecutive `poll` calls (no `Pending` in between)
+        pub remote: Vec<Report>,
+        /// reports the handler queues the moment it receives a `LocalProtocolsChange`
+        pub reply: Vec<Report>,
+    }
+
+    #[derive(Clone, Debug, Serialize, Deserialize)]
+    pub struct Case {
+        pub initial: Vec<u8>,
+        /// reports already queued when the connection is polled for the first time
+        pub first: Vec<Report>,
+        pub steps: Vec<Step>,
+    }
+
+    #[derive(Clone, Debug, PartialEq, Eq, Serialize)]
+    enum Seen {
+        Local(bool, Vec<String>),
+        Remote(bool, Vec<String>),
+    }
+
+    #[derive(Default)]
+    struct Shared {
+        protocols: Vec<String>,
+        queue: VecDeque<Report>,
+        reply: VecDeque<Report>,
+        /// reports in the order the handler returned them
+        returned: Vec<(bool, Vec<String>)>,
+        seen: Vec<Seen>,
+        replied: bool,
+    }
+
+    struct H11(Arc<Mutex<Shared>>);
+
+    fn set_of(v: &[u8]) -> HashSet<StreamProtocol> {
+        names(v).into_iter().filter_map(|n| StreamProtocol::try_from_owned(n).ok()).collect()
+    }
+
+    impl ConnectionHandler for H11 {
+        type FromBehaviour = Infallible;
+        type ToBehaviour = Infallible;
+        type InboundProtocol = ProbeUpgrade;
+        type OutboundProtocol = ProbeUpgrade;
+        type InboundOpenInfo = ();
+        type OutboundOpenInfo = ();
+
+        fn listen_protocol(&self) -> SubstreamProtocol<ProbeUpgrade, ()> {
+            SubstreamProtocol::new(ProbeUpgrade { names: self.0.lock().unwrap().protocols.clone() }, ())
+        }
+        fn connection_keep_alive(&self) -> bool {
+            true
+        }
+        fn poll(&mut self, _: &mut Context<'_>) -> Poll<ConnectionHandlerEvent<ProbeUpgrade, (), Infallible>> {
+            let mut g = self.0.lock().unwrap();
+            if let Some((added, v)) = g.queue.pop_front() {
+                let set = set_of(&v);
+                let mut ns: Vec<String> = set.iter().map(|p| p.as_ref().to_string()).collect();
+                ns.sort();
+                g.returned.push((added, ns));
+                return Poll::Ready(ConnectionHandlerEvent::ReportRemoteProtocols(if added { ProtocolSupport::Added(set) } else { ProtocolSupport::Removed(set) }));
+            }
+            Poll::Pending
+        }
+        fn on_behaviour_event(&mut self, ev: Infallible) {
+            match ev {}
+        }
+        fn on_connection_event(&mut self, event: ConnectionEvent<ProbeUpgrade, ProbeUpgrade, (), ()>) {
+            let mut g = self.0.lock().unwrap();
+            let sorted = |it: &mut dyn Iterator<Item = String>| {
+                let mut v: Vec<String> = it.collect();
+                v.sort();
+                v
+            };
+            match event {
+                ConnectionEvent::LocalProtocolsChange(c) => {
+                    let s = match c {
+                        ProtocolsChange::Added(a) => Seen::Local(true, sorted(&mut a.map(|p| p.as_ref().to_string()))),
+                        ProtocolsChange::Removed(r) => Seen::Local(false, sorted(&mut r.map(|p| p.as_ref().to_string()))),
+                    };
+                    g.seen.push(s);
+                    if !g.reply.is_empty() {
+                        g.replied = true;
+                        let r: Vec<Report> = g.reply.drain(..).collect();
+                        g.queue.extend(r);
+                    }
+                }
+                ConnectionEvent::RemoteProtocolsChange(c) => {
+                    let s = match c {
+                        ProtocolsChange::Added(a) => Seen::Remote(true, sorted(&mut a.map(|p| p.as_ref().to_string()))),
+                        ProtocolsChange::Removed(r) => Seen::Remote(false, sorted(&mut r.map(|p| p.as_ref().to_string()))),
+                    };
+                    g.seen.push(s);
+                }
+                _ => {}
+            }
+        }
+    }
+
+    thread_local! {
+        static REMOTE: std::cell::RefCell<Vec<SimMuxer>> = const { std::cell::RefCell::new(Vec::new()) };
+    }
+
+    pub fn check(c: &Case) -> Outcome {
+        let out = check_inner(c);
+        REMOTE.with(|r| r.borrow_mut().clear());
+        out
+    }
+
+    fn check_inner(c: &Case) -> Outcome {
+        let sh = Arc::new(Mutex::new(Shared { protocols: names(&c.initial), queue: c.first.iter().cloned().collect(), ..Default::default() }));
+        let ((ma, _ca), (mb, _cb)) = mux_pair();
+        REMOTE.with(|r| r.borrow_mut().push(mb));
+        let mut conn = Conn::new(boxed(ma), H11(sh.clone()), 8, Duration::from_secs(3600));
+        let w = noop_waker();
+        let mut cx = Context::from_waker(&w);
+        let mut lfold: BTreeSet<String> = BTreeSet::new();
+        let mut rfold: BTreeSet<String> = BTreeSet::new();
+        let mut rwant: BTreeSet<String> = BTreeSet::new();
+        let mut folded = 0usize;
+        let mut applied = 0usize;
+        let mut labels: Vec<&'static str> = vec![];
+        let mut nontrivial = false;
+        let mut prev_local: BTreeSet<String> = names(&c.initial).into_iter().filter(|n| valid(n)).collect();
+        let n_steps = c.steps.len();
+        for k in 0..=n_steps {
+            // step 0 is the first poll of the fresh connection (initial list, `first` reports)
+            let mut step_desc = json!("first poll");
+            if k > 0 {
+                let st = &c.steps[k - 1];
+                let mut g = sh.lock().unwrap();
+                if let Some(l) = &st.local {
+                    g.protocols = names(l);
+                }
+                g.queue.extend(st.remote.iter().cloned());
+                g.reply = st.reply.iter().cloned().collect();
+                g.replied = false;
+                step_desc = json!({"local": st.local.as_ref().map(|l| names(l)), "remote": st.remote.iter().map(|(a, v)| (a, names(v))).collect::<Vec<_>>(), "reply": st.reply.iter().map(|(a, v)| (a, names(v))).collect::<Vec<_>>()});
+            }
+            let mut quiescent = false;
+            for _ in 0..64 {
+                match conn.poll(&mut cx) {
+                    ConnPoll::Pending => {
+                        quiescent = true;
+                        break;
+                    }
+                    ConnPoll::Closed(e) => return Outcome::Inconclusive(format!("connection closed: {e}")),
+                    ConnPoll::Handler(v) => match v {},
+                    ConnPoll::AddressChange(_) => {}
+                }
+            }
+            if !quiescent {
+                return Outcome::Inconclusive("connection did not become quiescent".into());
+            }
+            let g = sh.lock().unwrap();
+            // reference: apply the reports in the order the handler returned them
+            let mut effective: Vec<(bool, bool)> = vec![]; // (is_added, changed something) of this poll
+            for (added, ns) in &g.returned[applied..] {
+                let before = rwant.len();
+                if *added {
+                    rwant.extend(ns.iter().cloned());
+                } else {
+                    for n in ns {
+                        rwant.remove(n);
+                    }
+                }
+                effective.push((*added, rwant.len() != before));
+            }
+            applied = g.returned.len();
+            let mut mixed = false;
+            for s in &g.seen[folded..] {
+                match s {
+                    Seen::Local(true, ns) => lfold.extend(ns.iter().cloned()),
+                    Seen::Local(false, ns) => {
+                        for n in ns {
+                            lfold.remove(n);
+                        }
+                    }
+                    Seen::Remote(true, ns) => rfold.extend(ns.iter().cloned()),
+                    Seen::Remote(false, ns) => {
+                        for n in ns {
+                            rfold.remove(n);
+                        }
+                    }
+                }
+                mixed = true;
+            }
+            let _ = mixed;
+            let new_events: Vec<Seen> = g.seen[folded..].to_vec();
+            folded = g.seen.len();
+            let lwant: BTreeSet<String> = g.protocols.iter().filter(|n| valid(n)).cloned().collect();
+            let has_dup = {
+                let mut s = BTreeSet::new();
+                g.protocols.iter().any(|n| !s.insert(n.clone()))
+            };
+            if lfold != lwant {
+                let sig = if has_dup { "C11:connection-local-fold-wrong-with-duplicate" } else { "C11:connection-local-fold-wrong" };
+                return Outcome::fail(sig, json!({"step": k, "input": step_desc, "advertised": g.protocols, "fold": lfold, "expected": lwant, "events_this_poll": new_events}));
+            }
+            if rfold != rwant {
+                let in_one_poll = effective.len() >= 2;
+                let sig = if in_one_poll { "C11:connection-remote-fold-wrong-after-several-reports-in-one-poll" } else { "C11:connection-remote-fold-wrong" };
+                return Outcome::fail(sig, json!({"step": k, "input": step_desc, "reports_returned_this_poll": effective.len(), "fold": rfold, "expected": rwant, "events_this_poll": new_events}));
+            }
+            if effective.windows(2).any(|w| !w[0].0 && w[0].1 && w[1].0 && w[1].1) {
+                labels.push("removed_then_added_in_one_poll");
+                nontrivial = true;
+            }
+            if effective.len() >= 2 {
+                labels.push("several_reports_in_one_poll");
+            }
+            if g.replied {
+                labels.push("remote_report_in_reply_to_local_change");
+                nontrivial = true;
+            }
+            if k == 0 && !effective.is_empty() {
+                labels.push("report_on_first_poll");
+            }
+            if has_dup && lwant != prev_local {
+                labels.push("dup_and_change_step");
+            }
+            if lwant.len() < prev_local.len() {
+                labels.push("shrink_step");
+            }
+            prev_local = lwant;
+        }
+        let _ = NAMES;
+        labels.sort();
+        labels.dedup();
+        Outcome::pass_l(nontrivial, labels)
+    }
+
+    fn report() -> impl Strategy<Value = Report> {
+        (any::<bool>(), proptest::collection::vec(0u8..8, 0..4))
+    }
+
+    pub fn strategy() -> BoxedStrategy<Case> {
+        let step = (proptest::option::weighted(0.5, super::list()), proptest::collection::vec(report(), 0..4), proptest::collection::vec(report(), 0..2)).prop_map(|(local, remote, reply)| Step { local, remote, reply });
+        (super::list(), proptest::collection::vec(report(), 0..3), proptest::collection::vec(step, 0..8)).prop_map(|(initial, first, steps)| Case { initial, first, steps }).boxed()
+    }
+}
+
 fn list() -> impl Strategy<Value = Vec<u8>> {
     proptest::collection::vec(0u8..8, 0..7)
 }
@@ -122,5 +394,13 @@ pub fn run_pure(ctx: &mut Ctx) {
         ctx.n(60_000, 2_000_000),
         &|| (list(), proptest::collection::vec(list(), 0..12), proptest::collection::vec((any::<bool>(), list()), 0..8)).prop_map(|(initial, updates, remote)| Case { initial, updates, remote }).boxed(),
         &check,
+    );
+    ctx.assume("the connection sub-check drives the real Connection through hook swarm::verif::Conn over a simulated muxer; the handler is scripted by the harness (advertised list, batches of ReportRemoteProtocols) and records the Local/RemoteProtocolsChange events it receives");
+    ctx.check::<conn::Case>(
+        "connection",
+        "a real Connection with a scripted handler: initial list, reports queued before the first poll, then up to 8 steps {new advertised list?, 0..3 remote reports returned by consecutive handler polls, 0..1 reports queued the moment a LocalProtocolsChange arrives}, the connection polled to Pending after each; after every poll the fold of LocalProtocolsChange equals the valid advertised names and the fold of RemoteProtocolsChange equals the reports returned so far applied in order. non-trivial = an effective Removed directly followed by an effective Added within one poll, or a remote report made in reply to a local change; distinct by case hash",
+        ctx.n(40_000, 1_200_000),
+        &conn::strategy,
+        &conn::check,
     );
 }
